@@ -1148,6 +1148,20 @@ def d_init(ex, st, recv, args, kwargs, cx):
         raise Unsupported("dict.__init__ with %s" % a.ty)
 
 
+def d_clear(ex, st, recv, args, kwargs, cx):
+    st = st.clone()
+    ex.o.dict_clear(st, ex.o.r(recv))
+    yield st, ex.o.none()
+
+
+def l_clear(ex, st, recv, args, kwargs, cx):
+    st = st.clone()
+    st.wr("$len", ex.o.r(recv), z3.IntVal(0))
+    yield st, ex.o.none()
+
+
+CONTAINER_METHODS[("dict", "clear")] = d_clear
+CONTAINER_METHODS[("list", "clear")] = l_clear
 CONTAINER_METHODS[("dict", "__init__")] = d_init
 CONTAINER_METHODS[("dict", "items")] = d_items
 CONTAINER_METHODS[("dict", "update")] = d_update
